@@ -342,6 +342,10 @@ def registers_models():
     def m_get_mut(ctx, args, st):
         regs = st.deref_all(args[0])
         owner = regs.tag[0].replace('_REGISTERS', '') if isinstance(regs, Opaque) else None
+        if owner is None and isinstance(regs, Adt) and regs.ty == 'Registers':
+            r = args[0]
+            while isinstance(st.deref(r), Ref): r = st.deref(r)
+            owner = f'@{r.alloc}{list(r.path)}'
         if owner is None: raise Unsupported(f'Registers::get_mut on {regs!r}')
         T = re.search(r'get_mut::<(.*)>$', ctx.callee, re.S).group(1).split('::')[-1]
         if T == 'InterruptRegister':
@@ -377,7 +381,13 @@ def describe_scope(st, rt):
             d = repr(data)
         return (v.ty, describe_scope(st, v.items[0]), tuple(sorted(d.items())) if isinstance(d, dict) else d)
     if isinstance(v, Adt) and v.ty in ('GlobalFrame', 'IndexFrame'):
-        return (v.ty, describe_scope(st, v.items[0]))
+        cell = v.items[1]
+        mv = cell.items[0] if isinstance(cell, Adt) and cell.ty == 'RefCell' else cell
+        return (v.ty, describe_scope(st, v.items[0]), tuple(mv.keys) if hasattr(mv, 'keys') else repr(mv))
+    if isinstance(v, Adt) and v.ty == 'RuntimeCore':
+        return ('RuntimeCore', describe_value(st, v.items[0]))
+    if hasattr(v, 'keys') and hasattr(v, 'items'):
+        return ('map', tuple(v.keys))
     return ('other', repr(v))
 
 
